@@ -73,7 +73,7 @@ type File struct {
 	StatFails   bool
 
 	SysV    interface{} // returned by Sys() of the file's infos
-	Names   []string // directory entries
+	Names   []string    // directory entries
 	Infos   []fs.FileInfo
 	Listed  int
 	Written []byte // bytes written through Write, in order
@@ -302,7 +302,7 @@ type Fs struct {
 
 var _ afero.Fs = (*Fs)(nil)
 
-func (s *Fs) fault(what string) bool { return s.Faults && verifrt.Bool("fsfault." + what) }
+func (s *Fs) fault(what string) bool { return s.Faults && verifrt.Bool("fsfault."+what) }
 
 func trimSlash(p string) string {
 	for len(p) > 0 && p[0] == '/' {
